@@ -112,6 +112,9 @@ Section Derived.
   Proof. apply (gd_sibs g0 G0). Qed.
 End Derived.
 
+Lemma Forall2_impl {A B} (P Q : A -> B -> Prop) l r : (forall a b, P a b -> Q a b) -> Forall2 P l r -> Forall2 Q l r.
+Proof. intros H. induction 1; constructor; auto. Qed.
+
 (* ---------- the invariant only depends on the current graph up to order ---------- *)
 Lemma inv_geq g0 g g2 ext xs nears cs : inv g0 g ext xs nears cs -> geq g g2 -> inv g0 g2 ext xs nears cs.
 Proof.
@@ -123,7 +126,7 @@ Proof.
   - rewrite <- I4. apply Permutation_app_tail. symmetry. exact PO.
   - unfold piece_ok in *. rewrite <- PO, I5. apply fids_perm. exact PR.
   - rewrite <- I8. apply Permutation_app_tail. symmetry. exact PE.
-  - eapply Forall2_impl; [|exact I10]. simpl. intros c pe [H1 H2]. split; [exact H1|].
+  - eapply Forall2_impl; [|exact I10]. cbv beta. intros c pe [H1 H2]. split; [exact H1|].
     eapply Permutation_in; [apply fids_perm; exact PR | exact H2].
   - intros e He. assert (He' : In e (nonlife (g_edges g))) by (eapply Permutation_in; [symmetry; exact PE | exact He]).
     destruct (I11 e He') as [H1 H2]. split; eapply Permutation_in; try exact PO; assumption.
@@ -134,7 +137,7 @@ Lemma qinv_geq g0 g g2 cs queue : NoDup (fids (g_roots g)) -> Permutation (g_roo
   qinv g0 g cs queue -> qinv g0 g2 cs queue.
 Proof.
   intros ND PR [qts [H1 [H2 H3]]]. exists qts. split; [|split; assumption].
-  eapply Forall2_impl; [|exact H1]. simpl. intros q tq [A B]. split; [|exact B].
+  eapply Forall2_impl; [|exact H1]. cbv beta. intros q tq [A B]. split; [|exact B].
   rewrite <- (find_f_perm q _ _ ND PR). exact A.
 Qed.
 
